@@ -1043,7 +1043,7 @@ func judge(c engine.Case) engine.Outcome {
 			second = result{val: v, err: dg.HasErrors()}
 		})
 		if p {
-			return engine.Fail("c18.repeat.panic."+sh.String(), "expanding / decoding the same body a second time panics: %s\n%s\n%s", msg, trimStack(st), desc())
+			return engine.Fail("c18.repeat.panic", "expanding / decoding the same body a second time panics: %s\n%s\n%s", msg, trimStack(st), desc())
 		}
 		pb, _, _ := guard(func() {
 			ctxB := &hcl.EvalContext{Variables: altGlobals}
@@ -1064,7 +1064,7 @@ func judge(c engine.Case) engine.Outcome {
 				}
 				refB, pmB, _ := decode(wb, spec, nil, &hcl.EvalContext{Variables: vars}, false)
 				if pmB == "" && (refB.err != other.err || (!refB.err && !unmarkDeep(refB.val).RawEquals(unmarkDeep(other.val)))) {
-					return engine.Fail("c18.repeat.second-context-result-wrong."+sh.String(),
+					return engine.Fail("c18.repeat.second-context-result-wrong",
 						"the same parsed body was expanded with context A and then with context B (same names, other values):\nExpand+Decode under B: error=%v %s\nwrite-out under B:     error=%v %s\n(result under A:       error=%v %s)\nwrite-out under B:\n%s\n%s",
 						other.err, vfmt.V(other.val), refB.err, vfmt.V(refB.val), impl.err, vfmt.V(impl.val), woB.Body.Native(), desc())
 				}
@@ -1077,19 +1077,19 @@ func judge(c engine.Case) engine.Outcome {
 			third = result{val: v, err: dg.HasErrors()}
 		})
 		if p {
-			return engine.Fail("c18.repeat.panic."+sh.String(), "expanding / decoding the same body again after an expansion with other variables panics: %s\n%s\n%s", msg, trimStack(st), desc())
+			return engine.Fail("c18.repeat.panic", "expanding / decoding the same body again after an expansion with other variables panics: %s\n%s\n%s", msg, trimStack(st), desc())
 		}
 		same := func(a, b result) bool { return a.err == b.err && a.val.RawEquals(b.val) }
 		if !same(impl, first) {
-			return engine.Fail("c18.repeat.second-expansion-differs."+sh.String(),
+			return engine.Fail("c18.repeat.second-expansion-differs",
 				"the same parsed body expanded and decoded twice with equal contexts:\nfirst:  error=%v %s\nsecond: error=%v %s\n%s", impl.err, vfmt.V(impl.val), first.err, vfmt.V(first.val), desc())
 		}
 		if !same(first, second) {
-			return engine.Fail("c18.repeat.second-decode-of-expanded-body-differs."+sh.String(),
+			return engine.Fail("c18.repeat.second-decode-of-expanded-body-differs",
 				"one expanded body decoded twice:\nfirst:  error=%v %s\nsecond: error=%v %s\n%s", first.err, vfmt.V(first.val), second.err, vfmt.V(second.val), desc())
 		}
 		if !same(impl, third) {
-			return engine.Fail("c18.repeat.result-depends-on-earlier-expansion."+sh.String(),
+			return engine.Fail("c18.repeat.result-depends-on-earlier-expansion",
 				"expansion with context A, then with context B (other values), then with A again:\nA first: error=%v %s\nB:       error=%v %s\nA again: error=%v %s\n%s",
 				impl.err, vfmt.V(impl.val), other.err, vfmt.V(other.val), third.err, vfmt.V(third.val), desc())
 		}
